@@ -22,6 +22,19 @@ PECULIAR = ["+", "-", "...", "->", "+a", "-a", ".a", "..", "a.b", "<=?", "!x", "
 
 def rand_atom(rng):
     c = rng.random()
+    if rng.random() < 0.03:
+        # long tokens: identifiers and strings of hundreds of characters, integers with many leading zeros, decimals with many digits
+        k = rng.randrange(5)
+        if k == 0:
+            return S("".join(rng.choice("abcxyz-!?*<>=/+.0123456789") for _ in range(rng.choice([80, 300]))).lstrip("+-.0123456789") or "a")
+        if k == 1:
+            return "".join(rng.choice(["a", " ", "\"", "\\", "\n", "(", ";", "|", "\t"]) for _ in range(rng.choice([200, 3000])))
+        if k == 2:
+            return ("int", rng.choice(["", "+", "-"]) + "0" * rng.choice([1, 12, 40]) + rng.choice(["", "7", "2147483647", "123"]) )
+        if k == 3:
+            return ("dec", rng.choice(["0." + "0" * 30 + "1", "1" + "0" * 21 + ".0", "123456789012345678901234567890e-20", "0.1000000000000000055511151231257827", "-1." + "9" * 40,
+                                       "3." + "1415926535" * 4, "1e-" + "0" * 10 + "5", "1" + "0" * 38 + ".", "0." + "0" * 44 + "1"]))
+        return ("bar", "".join(rng.choice(["a", " ", "(", ";", "\"", "#", "\n", "'"]) for _ in range(rng.choice([100, 1000]))))
     if c < 0.2:
         return S(rng.choice(PECULIAR + ["a", "b", "foo", "list->vector", "x1"]))
     if c < 0.28:
@@ -94,6 +107,8 @@ def model_of(t):
     if isinstance(t, tuple):
         if t[0] == "bar":
             return Sym(t[1])
+        if t[0] == "int":
+            return int(t[1] if t[1].strip("+-") else t[1] + "0")
         if t[0] == "rat":
             fr = Fraction(t[1])
             return int(fr) if fr.denominator == 1 else fr
